@@ -77,6 +77,12 @@ def body(chk):
     for j, (rpc, lim) in enumerate([(8, 1000), (16, 600), (1024, 2000), (4, 500)]):
         cases.append(dict(kind=("processed", "signal")[j % 2], sample=("IU2", "C*8")[j % 2], images=[("HH", None, 16, 3)], rpc=rpc, seed=chk.seed + 22000 + j,
                           fss=["vtrace"], sels=[("slice", 2, 5, 1), ("all",), ("int", 7)], origin="memory-limited", bigread_limit=lim))
+    # every cell on its own (0-d results through isel and []): each special bit pattern (signalling NaNs, -0.0, denormals, 0 / 65535) is met
+    # by a single-cell access too
+    for j in range(6):
+        n, p = (3, 4, 6)[j % 3], (5, 3, 4)[j % 3]
+        cases.append(dict(kind=("signal", "processed")[j % 2], sample=("C*8", "IU2")[j % 2], images=[("HH", None, n, p)], rpc=(1, 2, 1024)[j % 3], seed=chk.seed + 23000 + j,
+                          fss=["vtrace", "local"], sels=[("cells",), ("all",)], origin="single-cells"))
     # one batched TLC layout export for everything the workers need
     L.tables()
     want = [dict(L.SMALL_LEADER), dict(L.SMALL_LEADER, nmap=0), dict(file="volume", nfp=3), dict(file="trailer", nlow=0, lens=[])]
